@@ -1,7 +1,7 @@
 /-
   Proofs/QInvoke.lean — the `invoke` step: C03 (no double start), C01 (no conflicting function in
   flight, built-graph predecessors ended), C02 (user-graph ancestors ended), C07 (nothing ordered
-  after a failed function starts), C10 (limit), C08 (bound on starts after a quiet interrupt,
+  after a failed function starts, nothing that conflicts with a failed function starts), C10 (limit), C08 (bound on starts after a quiet interrupt,
   pre-signalled bound).
 -/
 import FnGraphVerif.Proofs.QStep
@@ -102,6 +102,25 @@ theorem step_invoke_coup (hx : GoodCtx x) (h : Coup x m s as) {f : Nat}
     cases hrp : reachPlus x.c.D y f with
     | false => rfl
     | true => exact absurd hfh (no_successor_of_failed hx.good hr hy (reachPlus_sound hrp)).1
+  · -- C07 on the declarations: a conflicting pair is ordered one way or the other (`GoodCtx.ordered`)
+    intro y hy
+    rw [h.fl] at hy
+    by_cases hyf : y = f
+    · exact Or.inl hyf
+    · right
+      cases hcf : conflict (declOf x.decls y) (declOf x.decls f) with
+      | false => rfl
+      | true =>
+        exfalso
+        have hyh : y ∈ s.handedOut := hinv.endedHanded y (Or.inr hy)
+        have hyn : y < x.c.n := hinv.handed_lt hyh
+        have hfn : f < x.c.n := hinv.handed_lt hfh
+        rcases hx.ordered y f hyn hfn hyf hcf with hyf' | hfy
+        · -- `f` is ordered after the failed `y`: it is never handed out
+          exact (no_successor_of_failed hx.good hr hy hyf').1 hfh
+        · -- `y` is ordered after `f`: `y` was handed out only after `f` ended, so `f` was invoked
+          have hfe : f ∈ s.endedOk := handout_after_ancestors hx.good hr (Or.inr (Or.inl hyh)) hfy
+          exact hf2 (hinv.endedInvoked f (Or.inl hfe))
   · intro hseq
     have := hinv.limSeq hseq
     omega
